@@ -18,6 +18,7 @@ import nasim.envs.state as m_state
 ID = "C03"
 TECHNIQUE = "symbolic execution of the real Network.reset/perform_action by z3 proxy values; inductive invariant, one symbolic step"
 needs_reach = True
+NO_REACH_OBLIGATIONS = ('initial_state_is_init',)      # about generate_initial_state, not about the pre-state
 EXTRA_STUBS = dyn.EXTRA_STUBS
 REQUIRED_WITNESSES = ['success', 'failure', 'reset', 'scan_discovers', 'exploit_extends_reach']
 STUBS = ["np -> vf.npmodel array model (validated in lock-step against numpy)",
